@@ -119,6 +119,8 @@ RCPTS = [
     (b'RCPT TO:<x@remote.example>', 'remote'), (b'rcpt to:<ALICE@EXAMPLE.ORG>', 'ok'), (b'RCPT TO:<postmaster>', 'ok'),
     # source routes are accepted and ignored: the address behind the colon is the recipient
     (b'RCPT TO:<@Relay1.Example.COM,@relay2.example.com:Carol@Example.ORG>', 'route'), (b'RCPT TO:<@r.example:ERIN@example.org>', 'route'),
+    # accepted only with the catch-all of world['catchall']: the envelope must still carry the lower-cased address
+    (b'RCPT TO:<Info@[192.0.2.1]>', 'literal-mixed-case'), (b'RCPT TO:<Some.Body@Example.Org>', 'catch-all'), (b'RCPT TO:<ALICE@[192.0.2.1]>', 'literal-upper'),
 ]
 SENDERS = [b'MAIL FROM:<s@remote.example>', b'MAIL FROM:<S.T@Remote.Example>', b'MAIL FROM:<>', b'mail from:<s@remote.example>',
            b'MAIL FROM:<s@remote.example> BODY=8BITMIME', b'MAIL FROM:<s@remote.example> SIZE=100']
@@ -150,6 +152,8 @@ def gen_spec(rng):
         w['noport'] = 1
     if rng.random() < 0.2:
         w['strict_all'] = 1
+    if rng.random() < 0.25:
+        w['catchall'] = 1
     esmtp = rng.random() < 0.7
     helo = rng.choice([b'client.example', b'other.example', b'[192.0.2.24]'])
     pre = [(b'EHLO ' if esmtp else b'HELO ') + helo]
@@ -173,8 +177,10 @@ def gen_spec(rng):
             # a command that is refused in the middle of the transaction (RFC 5321 4.1.4: a refused command does not
             # change the state); whatever the server makes of it, a message acknowledged later must carry the
             # envelope of the commands it accepted
-            rc = rc[:1] + [rng.choice([b'HELO  ', b'EHLO a b', b'HELO two words'])] + rc[1:] if rng.random() < 0.5 else \
-                [rng.choice([b'HELO  ', b'EHLO a b', b'HELO two words'])] + rc
+            # (at most two recipients behind it: the refusals that follow on the unchanged tree must stay below the
+            #  bad-command limit, which the DATA model does not count)
+            rc = rc[:1] + [rng.choice([b'HELO  ', b'EHLO a b', b'HELO two words'])] + rc[1:3] if rng.random() < 0.5 else \
+                [rng.choice([b'HELO  ', b'EHLO a b', b'HELO two words'])] + rc[:2]
         txs.append({'mail': H(mail), 'rcpts': [H(r) for r in rc], 'payload': {'hex': H(payload)}, 'cuts': cuts,
                     'greet': H(b'RSET') if txs else None, 'tag': kind + '/' + cmode})
     return {'world': w, 'pre': [H(p) for p in pre], 'txs': txs}
@@ -372,7 +378,7 @@ def chunk_independence(ctx, binary):
 def auth_name_specs():
     """accepted AUTH user names with line breaks (accept-all checkpassword stand-in)"""
     out = []
-    for user in (b'a\r\nX-Injected: yes', b'a\nReceived: from evil', b'a\rb', b'a\tb'):
+    for user in (b'a\r\nX-Injected: yes', b'a\nReceived: from evil', b'a\rb', b'a\tb', b'bob\0secret\0x\r\nX-Injected: yes', b'a\0\nb', b'\0a\r\nb'):
         for mech in ('plain', 'login'):
             if mech == 'plain':
                 pre = [b'EHLO client.example', b'AUTH PLAIN ' + base64.b64encode(b'\0' + user + b'\0pw')]
